@@ -252,6 +252,12 @@ func buildScript(seed uint64, p *ScriptPlan) (*built, error) {
 			}
 		}
 	}
+	if m := hasMut(p.Mutations, "inner-versions-remnant"); m != nil {
+		// supported_versions of the inner hello: TLS 1.3 first, then a stray
+		// octet (every enclosing length is consistent)
+		i := inner.Find(echbox.ExtVersions)
+		inner.Exts[i].Data = [][]byte{{3, 3, 4, 3}, {5, 3, 4, 3, 3, 0x7f}, {1, 3}}[m.A%3]
+	}
 	if hasMut(p.Mutations, "inner-no-tls13") != nil {
 		// only the inner hello stops offering TLS 1.3 (the generator disables
 		// compression for this mutation, so the outer keeps its own offer)
